@@ -43,7 +43,7 @@ func c13return(c *core.Ctx, r *core.Report) {
 	// call sites whose Out() is iterated, and nodes handed to the escape check, in the arm (helpers inlined)
 	var sites []ssa.Value
 	checked := map[ssa.Value]bool{}
-	for _, ii := range core.InlinedInstrsFrom(c, fn, region, 2, func(ins ssa.Instruction) bool {
+	for _, ii := range core.InlinedInstrsFrom(c, fn, region, c.Depth(2), func(ins ssa.Instruction) bool {
 		_, ok := ins.(*ssa.Call)
 		return ok
 	}) {
